@@ -205,7 +205,8 @@ def refineUniform (kv : List α) : List α := refineWith kv (midpoints (mesh kv)
 
 end RefineUniform
 
-/-! ## `__eq__` (bspline.py:77-81) -/
+/-! ## `__eq__` (bspline.py:77-83): since /repo commit 4e760ef `allclose(a,b) and allclose(b,a)` = `kvEqSym`;
+`kvEq` is the former one-directional predicate (kept for the negation witness `eq_not_symm`) -/
 
 section Eq
 variable [Add α] [Sub α] [Mul α] [Neg α] [Zero α] [LT α] [LE α] [DecidableLT α] [DecidableLE α]
@@ -218,11 +219,11 @@ def allclose (atol rtol : α) : List α → List α → Bool
   | x :: xs, y :: ys => decide (absK (x - y) ≤ atol + rtol * absK y) && allclose atol rtol xs ys
   | _, _ => true
 
-/-- `KnotVector.__eq__` -/
+/-- the former `KnotVector.__eq__` (`allclose(self.kv, other.kv)` only) -/
 def kvEq (atol rtol : α) (kv1 : List α) (p1 : Nat) (kv2 : List α) (p2 : Nat) : Bool :=
   if p1 = p2 ∧ kv1.length = kv2.length then allclose atol rtol kv1 kv2 else false
 
-/-- the proposed symmetric repair: `allclose(a,b) and allclose(b,a)` -/
+/-- `KnotVector.__eq__` as it is now: `allclose(a,b) and allclose(b,a)` -/
 def kvEqSym (atol rtol : α) (kv1 : List α) (p1 : Nat) (kv2 : List α) (p2 : Nat) : Bool :=
   kvEq atol rtol kv1 p1 kv2 p2 && kvEq atol rtol kv2 p2 kv1 p1
 
